@@ -82,7 +82,7 @@ func suite() hlib.Suite {
 			}
 			for _, conc := range concs {
 				for _, limit := range []uint64{1, 2, 3, 7, 1100} {
-					for bi, body := range []time.Duration{time.Millisecond, 150 * time.Millisecond, time.Millisecond, time.Millisecond, time.Millisecond} {
+					for bi, body := range []time.Duration{time.Millisecond, 150 * time.Millisecond, time.Millisecond, time.Millisecond, time.Millisecond, 150 * time.Millisecond, 150 * time.Millisecond} {
 						// limit 1100 (C03, three workers, instant bodies only): ids well beyond a thousand are still their own decimal spelling
 						if limit == 1100 && (*prop != "C03" || conc != 3 || bi != 0 || mc.mode == "file") {
 							continue
@@ -99,6 +99,13 @@ func suite() hlib.Suite {
 						// fifth variant (C03 only): the scenario is a combination (f1.CombineScenarios) of the id-observing function and a passing one
 						combined := bi == 4
 						if combined && (*prop != "C03" || conc > 3) {
+							continue
+						}
+						// sixth variant (C04 only): a combination of two parts that both take time and both count themselves in flight
+						// (the parts of one iteration run one after the other on that iteration's handle);
+						// seventh variant (C04 only): every iteration's cleanup registers another cleanup - the worker must come back
+						twoParts, nestedCleanup := bi == 5, bi == 6
+						if (twoParts || nestedCleanup) && (*prop != "C04" || conc > 3) {
 							continue
 						}
 						someFail := bi == 3
@@ -132,6 +139,12 @@ func suite() hlib.Suite {
 						if combined {
 							input += " combined-scenario"
 						}
+						if twoParts {
+							input += " combined-scenario-of-two-parts-that-take-time"
+						}
+						if nestedCleanup {
+							input += " iteration-cleanups-register-cleanups"
+						}
 						r.SampleCase(input)
 						var ids []int
 						inflight, hw := 0, 0
@@ -155,6 +168,9 @@ func suite() hlib.Suite {
 								if someFail && len(ids)%2 == 0 {
 									defer t.Fail()
 								}
+								if nestedCleanup {
+									t.Cleanup(func() { t.Cleanup(func() {}) })
+								}
 								inflight++
 								if inflight > hw {
 									hw = inflight
@@ -173,6 +189,9 @@ func suite() hlib.Suite {
 						}
 						if combined {
 							rs.ScenarioFn = f1.CombineScenarios(rs.ScenarioFn, func(*f1testing.T) f1testing.RunFn { return func(*f1testing.T) {} })
+						}
+						if twoParts {
+							rs.ScenarioFn = f1.CombineScenarios(rs.ScenarioFn, rs.ScenarioFn)
 						}
 						if limit == 1100 {
 							rs.Flags = mc.flags(40) // 40 per 100 ms tick
@@ -212,6 +231,11 @@ func suite() hlib.Suite {
 							}
 							if shared {
 								r.Fail("C04/run-handle", "shared/"+mc.mode, "two concurrently executing iterations were handed the same test handle", input)
+							}
+							// a worker that does not come back from an iteration's cleanups is not usable any more: the run then makes
+							// fewer iterations than the limit although the trigger keeps requesting
+							if nestedCleanup && uint64(len(ids)) != limit {
+								r.Fail("C04/run-usable", "worker-lost/"+mc.mode, fmt.Sprintf("%d iterations ran with max-iterations %d: workers did not return from their iterations", len(ids), limit), input)
 							}
 							// requests per tick exceed the concurrency and bodies outlast a tick: every worker must get used
 							if (body >= 100*time.Millisecond || conc > 3) && hw < conc && limit >= uint64(conc) {
